@@ -77,6 +77,37 @@ func runC19(r *run) {
 			}
 			emit(caseT{"chain", append(w.args("", c19Ctx()), "-", "-", hx(v), hx(strings.Join(chain, "|")), fmt.Sprint(pos))})
 		}
+		// every filter twice in one chain, alone and with another filter in between
+		for fi, f := range c19Filters {
+			one := f.name
+			if f.param != "" {
+				one += ":" + f.param
+			}
+			mid := c19Filters[(fi*7+3)%len(c19Filters)]
+			midS := mid.name
+			if mid.param != "" {
+				midS += ":" + mid.param
+			}
+			for _, chain := range []string{one + "|" + one, one + "|" + midS + "|" + one} {
+				for _, v := range []string{"sv", "nv", "lv"} {
+					for _, pos := range []int{0, 3, 9} {
+						emit(caseT{"chain", append(w.args("", c19Ctx()), "-", "-", hx(v), hx(chain), fmt.Sprint(pos))})
+					}
+				}
+			}
+		}
+		// tags that collect their body before writing it, re-entered through a recursive macro:
+		// every level must get the chain applied to ITS rendered body
+		for _, c := range [][2]string{
+			{"{% macro m(n) %}{% filter upper %}a{% if n %}{{ m(n - 1) }}{% endif %}b{% endfilter %}{% endmacro %}{{ m(2) }}", "AAABBB"},
+			{"{% macro m(n) %}{% filter upper|cut:\"A\" %}a{{ n }}{% if n %}[{{ m(n - 1) }}]{% endif %}b{% endfilter %}{% endmacro %}{{ m(2) }}", "2[1[0B]B]B"},
+			{"{% macro m(n) %}{% filter lower %}X{% if n %}{{ m(n - 1) }}{{ m(n - 1) }}{% endif %}Y{% endfilter %}{% endmacro %}{{ m(2) }}", "xxxyxyyxxyxyyy"},
+			{"{% macro m(n) %}{% spaceless %}<a> {% if n %}{{ m(n - 1) }}{% endif %} </a>{% endspaceless %}{% endmacro %}{{ m(2) }}", "<a><a><a></a></a></a>"},
+			{"{% macro m(n) %}{% filter upper %}{% for i in \"ab\" %}{{ i }}{% if n %}{{ m(n - 1) }}{% endif %}{% endfor %}{% endfilter %}{% endmacro %}{{ m(1) }}", "AABBAB"},
+		} {
+			a := w.args(c[0], c19Ctx())
+			emit(caseT{"reentrant", append(a, "-", "-", hx(c[1]))})
+		}
 		// unknown names
 		for _, src := range []string{"{{ sv|nosuchfilter }}", "{{ sv|upper|nosuch:1 }}", "{% nosuchtag %}", "{% if sv|nosuch %}x{% endif %}", "{% filter nosuch %}x{% endfilter %}", "{% filter upper|nosuch %}x{% endfilter %}"} {
 			emit(caseT{"unknown", w.args(src, c19Ctx())})
@@ -143,6 +174,15 @@ func execC19(r *run, c caseT) {
 		r.nontrivial("register:" + name)
 		if rejected != "" {
 			r.reject(id, rejected, map[string]any{"name": name})
+		}
+		return
+	case "reentrant":
+		w, src, ctx := worldFromArgs(c.args)
+		o, _ := w.render(src, false, ctx)
+		id := r.emit("render", w.args(src, ctx), o.obs)
+		r.nontrivial(c.args[0])
+		if o.obs != obsOK(unhx(c.args[9])) {
+			r.reject(id, "a tag that is re-entered while it collects its body did not apply its chain to its own rendered body", map[string]any{"template": src, "observed": o.obs, "expected": unhx(c.args[9])})
 		}
 		return
 	case "unknown":
